@@ -1,0 +1,5 @@
+//go:build !verif
+
+package engine
+
+func verifEv(ev string, a ...any) {}
